@@ -1531,8 +1531,8 @@ func runWitness(c *mon.Case) {
 }
 
 func main() {
-	mon.SetNote("rule", "dedup: random container (alignment / sequence bag, aligned or unaligned / clone / unaligned copy; 0..12 rows x 0..80 residues; nt or aa residue mixes with both cases, gaps, N, X; declared alphabet nt / aa / unknown, also the one the residues were not drawn for) whose rows are copies, wildcard variants (positions redrawn among - N n X x), case variants, one-residue-off variants or prefixes of a few base rows, x nAsGap; decided by a first-occurrence scan over the rows (ref.go) plus partition / leader / order / untouched-row checks, idempotence, the two-step relation Deduplicate(false);Deduplicate(true) == Deduplicate(true), re-adding a removed name, and a read back through every access path and the invariant hook. compress: random alignment (0..12 rows x 0..300 sites) whose columns are drawn from few patterns, patterns sharing the first k rows (k up to n-1 = 11), blocks in descending order with pairwise different sizes, identical rows, one odd column, case/gap variants; decided by comparing the multiset of input columns with {emitted column j : weight j}, pairwise distinct emitted columns, weight sum, two column additive statistics, unchanged names/comments/order, every access path, a second Compress (all weights 1), a clone taken before (unchanged) and after (equal), adding a row of the new / former length. chain: 3..8 operations (Deduplicate, Compress, AddSequence of a copy under a freed name, Concat with a copy, continue on a clone) each decided as above. Non-trivial: dedup = at least 2 rows and at least one removed; compress = at least 2 patterns and fewer patterns than sites; chain = a Deduplicate/Compress after the first operation removed something. Distinct = (rows, alphabet, options / operation list).")
-	mon.SetNote("assumptions", "identity of sequences = equality of the residue bytes; the documentation says 'X/N (depending on alphabet) are considered identical to GAPS': N for a nucleotide container, X for a protein one, upper case as documented; accepted as well (nobody specifies them, one reading must explain the whole result of a call): lower case n / x also compared as gaps, letter case ignored in the comparison, and for a container of unknown alphabet any of none / N / X / both;; order of the groups and of the followers inside a group is free (the statement fixes the leader and the partition);; order of the emitted patterns is free ('order of patterns/sites may have changed'), weights[j] belongs to emitted column j;; an alignment without sequence has nothing to compress: it must stay an empty alignment (Length() unchanged, accepts a first sequence);; sequence names are pairwise distinct (containers with duplicated names are property C01's subject);; the input of every operation is the container read through IterateAll just before the call;; violations on inputs holding bytes >= 0x80 carry the suffix ':non-ascii' in their signature")
+	mon.SetNote("rule", "dedup: random container (alignment / sequence bag, aligned or unaligned / clone / unaligned copy; 0..12 rows x 0..80 residues; nt or aa residue mixes with both cases, gaps, N, X; declared alphabet nt / aa / unknown, also the one the residues were not drawn for) whose rows are copies, wildcard variants (positions redrawn among - N n X x), case variants, one-residue-off variants or prefixes of a few base rows, x nAsGap; decided by a first-occurrence scan over the rows (ref.go) plus partition / leader / order / untouched-row checks, idempotence, the two-step relation Deduplicate(false);Deduplicate(true) == Deduplicate(true), re-adding a removed name, and a read back through every access path and the invariant hook. compress: random alignment (0..12 rows x 0..300 sites) whose columns are drawn from few patterns, patterns sharing the first k rows (k up to n-1 = 11), blocks in descending order with pairwise different sizes, identical rows, one odd column, case/gap variants; decided by comparing the multiset of input columns with {emitted column j : weight j}, pairwise distinct emitted columns, weight sum, two column additive statistics, unchanged names/comments/order, every access path, a second Compress (all weights 1), a clone taken before (unchanged) and after (equal), adding a row of the new / former length. chain: 3..8 operations (Deduplicate, Compress, AddSequence of a copy under a freed name, Concat with a copy, continue on a clone) each decided as above. Non-trivial: dedup = at least 2 rows and at least one removed; compress = at least 2 patterns and fewer patterns than sites; chain = a Deduplicate/Compress after the first operation removed something. Distinct = (rows, alphabet, options / operation list). cli: the goalign binary built from the tree: `dedup` (-l/--log or no log, --n-as-gap, --name on files with repeated names, --alphabet omitted/auto/nt/aa, --unaligned, -o or stdout) and `compress` (--weight-out or none, -o or stdout) on a FASTA alignment, FASTA sequences of unequal length (--unaligned, also with -p/-x/-u which are documented as ignored), 1..3 Phylip alignments (-p, --one-line/--no-block) or --auto-detect, with the sequence generators of the dedup / compress sub-checks; the written alignments, the groups of the log file and the weights are compared with refDedup under the admissible readings resp. with the column multiset of the input; non-trivial = a row was removed / two columns were merged.")
+	mon.SetNote("assumptions", "identity of sequences = equality of the residue bytes; the documentation says 'X/N (depending on alphabet) are considered identical to GAPS': N for a nucleotide container, X for a protein one, upper case as documented; accepted as well (nobody specifies them, one reading must explain the whole result of a call): lower case n / x also compared as gaps, letter case ignored in the comparison, and for a container of unknown alphabet any of none / N / X / both;; order of the groups and of the followers inside a group is free (the statement fixes the leader and the partition);; order of the emitted patterns is free ('order of patterns/sites may have changed'), weights[j] belongs to emitted column j;; an alignment without sequence has nothing to compress: it must stay an empty alignment (Length() unchanged, accepts a first sequence);; sequence names are pairwise distinct (containers with duplicated names are property C01's subject);; the input of every operation is the container read through IterateAll just before the call;; violations on inputs holding bytes >= 0x80 carry the suffix ':non-ascii' in their signature;; command line: the alphabet of a file is the one given with --alphabet nt/aa, else the documented letter classes (a letter among Q E I L F P Z: protein; U or O: nucleotide); when the letters fit both alphabets N or X (or both) must act as the wildcard of --n-as-gap, 'no wildcard' is not accepted; --alphabet is documented as 'Alignment/Sequences alphabet' and is therefore expected to hold with --unaligned too; --name ('by name instead of sequence ... only the first appears in the output file'): the first row of every name is written, sequences are not compared, the content of the log file is not judged; the log holds one line per kept row (a group, comma separated, singletons included), the lines of the alignments of one file follow each other; the weight file holds one weight per written pattern, alignment after alignment; with the default 'none' of -l / --weight-out no file is written; names contain no comma and no blank; global reading options (--input-strict, --ignore-identical on its own, -x/-u/-k input) belong to C02/C03")
 	mon.SetNote("exhaustive_subspaces", "exh-dedup: every 3 rows x 2 residues container over {A,N,X,n,x,-} x nAsGap on/off x declared alphabet nt/aa/unknown x alignment (279936 cases, quick tier) and sequence bag as well (559872 cases, thorough tier); exh-compress: every column sequence of length 0..5 (thorough 0..6) over all 9 patterns of 2 rows on {A,C,-} and all 8 patterns of 3 rows on {A,-}, and every single row of length 0..7 (thorough 0..9) on {A,C,a}")
 	for _, k := range []string{"align", "seqbag", "seqbag-unaligned", "clone", "cloneseqbag", "unalign"} {
 		mon.Floor("dedup-container:"+k, 500)
@@ -1571,6 +1571,36 @@ func main() {
 	mon.Floor("q:exh:dedup", exhDedupCount/2)
 	mon.Floor("t:exh:dedup", exhDedupCount)
 	mon.Floor("witness", len(witnesses))
+	// sub cli: goalign dedup / goalign compress
+	mon.Floor("cli:runs", 280)
+	mon.Floor("cli:outcome:ok", 250)
+	mon.Floor("cli:dedup", 150)
+	mon.Floor("cli:compress", 80)
+	for _, md := range []string{"fasta", "phylip", "unaligned", "auto-fasta", "auto-phylip"} {
+		mon.Floor("cli:dedup:mode:"+md, 15)
+	}
+	for _, md := range []string{"fasta", "phylip", "auto-fasta", "auto-phylip"} {
+		mon.Floor("cli:compress:mode:"+md, 10)
+	}
+	for _, k := range []string{"n-as-gap=true", "n-as-gap=false", "log=true", "name=false"} {
+		mon.Floor("cli:dedup:"+k, 60)
+	}
+	mon.Floor("cli:dedup:log=false", 20)
+	mon.Floor("cli:dedup:name=true", 20)
+	mon.Floor("cli:dedup:name:removed>0", 10)
+	mon.Floor("cli:dedup:removed>0", 50)
+	mon.Floor("cli:dedup:n-as-gap-merges-more-than-exact", 3)
+	for _, a := range []string{"nt", "aa", "auto"} {
+		mon.Floor("cli:dedup:alphabet:"+a, 6)
+	}
+	mon.Floor("cli:dedup:several-alignments", 30)
+	mon.Floor("cli:dedup:output:stdout", 20)
+	mon.Floor("cli:dedup:output:file", 60)
+	mon.Floor("cli:compress:weight-out=true", 40)
+	mon.Floor("cli:compress:weight-out=false", 8)
+	mon.Floor("cli:compress:merged", 30)
+	mon.Floor("cli:compress:several-alignments", 20)
+	mon.Floor("cli:compress:output:stdout", 8)
 	mon.Main("C13", []mon.Sub{
 		{Name: "witness", Quick: len(witnesses), Thorough: len(witnesses), Run: runWitness},
 		{Name: "dedup", Quick: 150000, Thorough: 4000000, Run: runDedup},
@@ -1578,5 +1608,6 @@ func main() {
 		{Name: "chain", Quick: 40000, Thorough: 1000000, Run: runChain},
 		{Name: "exh-dedup", Quick: exhDedupCount / 2, Thorough: exhDedupCount, Run: runExhDedup},
 		{Name: "exh-compress", Quick: exhCompressCount(false), Thorough: exhCompressCount(true), Run: runExhCompress},
+		{Name: "cli", Quick: 330, Thorough: 3000, Serial: true, Run: runCli},
 	})
 }
